@@ -106,27 +106,34 @@ type CheckSpec struct {
 
 var crashLine = regexp.MustCompile(`(?m)^(panic: .*|fatal error: .*|WARNING: DATA RACE|.*concurrent map .*)$`)
 
+// IsChild reports whether the process was started as a case child.
+func IsChild() bool {
+	return len(os.Args) > 1 && (os.Args[1] == "-child" || os.Args[1] == "--child")
+}
+
+// ChildMain runs one case in the child process and exits.
+func ChildMain(spec CheckSpec) {
+	fs := flag.NewFlagSet("child", flag.ExitOnError)
+	fs.Bool("child", false, "run one case (internal)")
+	caseJSON := fs.String("case", "", "case description (internal)")
+	scratch := fs.String("scratch", "", "scratch dir (internal)")
+	_ = fs.Parse(os.Args[1:])
+	var c Case
+	if err := json.Unmarshal([]byte(*caseJSON), &c); err != nil {
+		fmt.Fprintln(os.Stderr, "bad case:", err)
+		os.Exit(3)
+	}
+	rep := newStdoutReporter()
+	spec.RunCase(c, rep, *scratch)
+	rep.emit(record{Kind: "done"})
+	os.Exit(0)
+}
+
 // Main is the entry point of every chain check binary.
 func Main(spec CheckSpec) {
-	child := flag.Bool("child", false, "run one case (internal)")
-	caseJSON := flag.String("case", "", "case description (internal)")
-	scratch := flag.String("scratch", "", "scratch dir (internal)")
-	flag.CommandLine.SetOutput(os.Stderr)
-	// evid.Start parses the flags.
-	if len(os.Args) > 1 && (os.Args[1] == "-child" || os.Args[1] == "--child") {
-		flag.Parse()
-		_ = child
-		var c Case
-		if err := json.Unmarshal([]byte(*caseJSON), &c); err != nil {
-			fmt.Fprintln(os.Stderr, "bad case:", err)
-			os.Exit(3)
-		}
-		rep := newStdoutReporter()
-		spec.RunCase(c, rep, *scratch)
-		rep.emit(record{Kind: "done"})
-		os.Exit(0)
+	if IsChild() {
+		ChildMain(spec)
 	}
-
 	r := evid.Start(spec.ID, spec.Level)
 	r.Rule = spec.Rule
 	var cases []Case
@@ -135,6 +142,16 @@ func Main(spec CheckSpec) {
 	} else {
 		cases = spec.Cases(r)
 	}
+	RunCases(r, spec, cases)
+	if spec.Extra != nil {
+		spec.Extra(r)
+	}
+	r.Finish(spec.Floor)
+}
+
+// RunCases executes the cases in child processes and folds what they report
+// into r (usable from checks that have their own main).
+func RunCases(r *evid.Run, spec CheckSpec, cases []Case) {
 	timeout := spec.Timeout
 	if timeout == 0 {
 		timeout = 10 * time.Minute
@@ -185,10 +202,6 @@ func Main(spec CheckSpec) {
 	for _, rr := range evid.RaceReports(raceDir + "/c") {
 		r.Violation("race/"+raceKey(rr.Key), "data race reported by the Go race detector", map[string]any{"report": rr.Text, "count": rr.Count})
 	}
-	if spec.Extra != nil {
-		spec.Extra(r)
-	}
-	r.Finish(spec.Floor)
 }
 
 func raceKey(k string) string {
